@@ -48,7 +48,7 @@ func (P) Describe() harness.Description {
 			"previous-window QPS is claimed only for views with I_v + L_v <= I (and t >= L_v: before that the reference instant t - L_v does not exist)",
 			"per-second items: all-zero items inside the window are tolerated; AvgRt of an item is checked only when completes > 0 (floor)",
 		},
-		Real: []string{"core/stat/base.LeapArray", "BucketLeapArray", "MetricBucket", "SlidingWindowMetric", "core/stat.BaseStatNode", "base.CheckValidityForReuseStatistic", "the same code a second time on a worker built for GOARCH=386 (a quarter of the budget, seed + 386000): int and pointers of 32 bits - skipped with a note where such a worker cannot be built or run"},
+		Real: []string{"core/stat/base.LeapArray", "BucketLeapArray", "MetricBucket", "SlidingWindowMetric", "core/stat.BaseStatNode", "base.CheckValidityForReuseStatistic"},
 		Stub: []string{"util.Clock (virtual clock)"},
 	}
 }
